@@ -212,28 +212,37 @@ class FileResponse(StreamResponse):
             return _FileResponseResult.NOT_ACCEPTABLE, None, st, None
 
         etag_value = f"{st.st_mtime_ns:x}-{st.st_size:x}"
+        # Preconditions are ignored unless the response without them would
+        # be 2xx: https://www.rfc-editor.org/rfc/rfc9110#section-13.2.1-2
+        evaluate = 200 <= self._status < 300
 
         # https://www.rfc-editor.org/rfc/rfc9110#section-13.1.1-2
-        if (ifmatch := request.if_match) is not None and not self._etag_match(
-            etag_value, ifmatch, weak=False
+        if (
+            (ifmatch := request.if_match) is not None
+            and evaluate
+            and not self._etag_match(etag_value, ifmatch, weak=False)
         ):
             return _FileResponseResult.PRE_CONDITION_FAILED, None, st, file_encoding
 
         if (
-            (unmodsince := request.if_unmodified_since) is not None
+            evaluate
+            and (unmodsince := request.if_unmodified_since) is not None
             and ifmatch is None
             and st.st_mtime > unmodsince.timestamp()
         ):
             return _FileResponseResult.PRE_CONDITION_FAILED, None, st, file_encoding
 
         # https://www.rfc-editor.org/rfc/rfc9110#section-13.1.2-2
-        if (ifnonematch := request.if_none_match) is not None and self._etag_match(
-            etag_value, ifnonematch, weak=True
+        if (
+            (ifnonematch := request.if_none_match) is not None
+            and evaluate
+            and self._etag_match(etag_value, ifnonematch, weak=True)
         ):
             return _FileResponseResult.NOT_MODIFIED, None, st, file_encoding
 
         if (
-            (modsince := request.if_modified_since) is not None
+            evaluate
+            and (modsince := request.if_modified_since) is not None
             and ifnonematch is None
             and st.st_mtime <= modsince.timestamp()
         ):
@@ -338,7 +347,11 @@ class FileResponse(StreamResponse):
 
         etag_value = f"{st.st_mtime_ns:x}-{st.st_size:x}"
         ifrange_hdr = request.headers.get(hdrs.IF_RANGE)
-        if ifrange_hdr is None:
+        if status != 200:
+            # Range applies only to what would otherwise be a 200 response:
+            # https://www.rfc-editor.org/rfc/rfc9110#section-14.2-4
+            process_range = False
+        elif ifrange_hdr is None:
             process_range = True
         elif (ifrange := request.if_range) is not None:
             process_range = file_mtime <= ifrange.timestamp()
